@@ -22,7 +22,7 @@ import (
 	"verif/internal/vrt"
 )
 
-var suite = vrt.NewSuite("C01", "inputs come from (1) an exhaustive grammar-state x 256-byte x completion-suffix matrix, (2) exhaustive small-scope strings over byte/class/token alphabets, (3) rapid: grammar-generated valid texts and 1-3 point mutations of them, optional BOM. Each input is given to every strict front-end; the verdict must equal the RFC 8259 reference recogniser (cross-checked with encoding/json.Valid). Non-trivial = not dead at its first byte and (valid with >=2 tokens, or rejected at offset >=1, or incomplete); distinct = distinct input bytes")
+var suite = vrt.NewSuite("C01", "inputs come from (1) an exhaustive grammar-state x 256-byte x completion-suffix matrix, (2) exhaustive small-scope strings over byte/class/token alphabets, (3) rapid: grammar-generated valid texts and 1-3 point mutations of them, optional BOM at the start and, for a tenth, a byte order mark somewhere inside or at a multiple of 4096. Each input is given to every strict front-end (byte slices, whole-input readers, readers with 1, 4, 5 and 7 byte reads with and without EOF delivered with the data, instances with a history); the verdict must equal the RFC 8259 reference recogniser (cross-checked with encoding/json.Valid). Non-trivial = not dead at its first byte and (valid with >=2 tokens, or rejected at offset >=1, or incomplete); distinct = distinct input bytes")
 
 type Case struct {
 	Input []byte `json:"input"`
